@@ -5,6 +5,7 @@ import (
 	"crypto/sha256"
 	"encoding/hex"
 	"fmt"
+	"math"
 	"math/big"
 	"sort"
 
@@ -312,6 +313,14 @@ func (l *Ledger) Step() *BlockResult {
 		}
 	}
 	if rates != nil {
+		// a price that does not fit a signed 64-bit integer is no price (fix of the
+		// forged-price wedge: it can neither be stored nor computed with)
+		for t, v := range rates {
+			if v > math.MaxInt64 {
+				rates[t] = 0
+				res.Probes = append(res.Probes, "price_beyond_int64_recorded_as_zero")
+			}
+		}
 		res.Rated, res.Rates = true, rates
 		l.Rates[h] = rates
 		l.rated = append(l.rated, h)
@@ -486,6 +495,11 @@ func (l *Ledger) snapshotPayout(res *BlockResult, h uint32, rates map[int]uint64
 			}
 			v := new(big.Int).Mul(mn, u(rates[t]))
 			v.Div(v, u(rates[USD]))
+			if !v.IsInt64() {
+				// a holding whose pUSD value does not fit an int64 does not count
+				res.Probes = append(res.Probes, "holding_value_beyond_int64_not_counted")
+				continue
+			}
 			total.Add(total, v)
 		}
 		if total.Sign() > 0 && total.IsUint64() {
